@@ -3,6 +3,13 @@
 import glob, json, os
 here = os.path.dirname(os.path.abspath(__file__))
 man = json.load(open(os.path.join(here, "MANIFEST.json")))
+import re
+print("### 10.0 Pinned theorems per property (coq/Properties/*.v; each is followed there by Check + Print Assumptions)\n")
+for f in sorted(glob.glob(os.path.join(here, "coq", "Properties", "*.v"))):
+    src = re.sub(r"\(\*.*?\*\)", " ", open(f).read(), flags=re.S)
+    names = re.findall(r"^\s*Theorem\s+([\w']+)", src, flags=re.M)
+    print("* `%s` (%d): %s" % (os.path.basename(f), len(names), ", ".join("`%s`" % n for n in names[:40]) + (" …" if len(names) > 40 else "")))
+print()
 print("### 10.1 Status per property (from MANIFEST.json and the last evidence files)\n")
 print("| property | level claimed | theorems (discharged/obligations) | quick cases | wall s |")
 print("|---|---|---|---|---|")
